@@ -155,6 +155,74 @@ def r12_2(ctx):
     ctx.end()
 
 
+def dag_run(ctx, n, edges, rem, order):
+    """Interpret update_PERT_data on an FS network given by edges (i -> j) with remaining work polynomials `rem`."""
+    from ..interp import State
+    f = ctx.repo.method(WORKFLOW, "update_PERT_data")
+    tasks = [Obj(f"T{i}", TASK) for i in range(n)]
+    st = State()
+    for i, t in enumerate(tasks):
+        st.heap[(t.name, "remaining_work_amount")] = rem[i]
+        st.heap[(t.name, "input_task_list")] = ListV([ListV([tasks[a], E(DEP, "FS")], True, "list") for a, b in edges if b == i])
+        st.heap[(t.name, "output_task_list")] = ListV([ListV([tasks[b], E(DEP, "FS")], True, "list") for a, b in edges if a == i])
+        for a, v in (("est", 0), ("eft", 0), ("lst", -1), ("lft", -1)):
+            st.heap[(t.name, a)] = Poly.const(v)
+    for sym in ("t", "a", "b", "c", "d", "e"):
+        st.bounds[sym] = (0, None)
+    I = mk_interp(ctx, inline=lambda call, callee, depth: callee.cls == WORKFLOW, collections={"self.task_list": [tasks[i] for i in order]},
+                  max_depth=3, unroll_while=n + 3, max_paths=400)
+    return f, tasks, I.run_function(f, bind={"time": Poly.sym("t")}, st=st)
+
+
+def r12_2b(ctx):
+    """Joins, forks and a diamond: one branch is longer by a non-negative symbol `e`, so every max/min the passes take is
+    decidable by interval reasoning (or forks on e == 0, where both outcomes coincide)."""
+    import itertools
+    ctx.begin("R12.2b", "CPM formulas on symbolic FS join / fork / diamond (branch lengths differ by a non-negative symbol)", floor=3)
+    P = Poly.sym
+    t, a, b, c, d, e = (P(x) for x in "tabcde")
+    shapes = {
+        # join: T0 -> T2 <- T1 ; r0 = b + e (longer), r1 = b
+        "join": (3, [(0, 2), (1, 2)], [b + e, b, c],
+                 lambda: {0: (t, t + b + e, t, t + b + e), 1: (t, t + b, t + e, t + b + e), 2: (t + b + e, t + b + e + c, t + b + e, t + b + e + c)}, t + b + e + c),
+        # fork: T0 -> T1, T0 -> T2 ; r1 = b + e, r2 = b
+        "fork": (3, [(0, 1), (0, 2)], [a, b + e, b],
+                 lambda: {0: (t, t + a, t, t + a), 1: (t + a, t + a + b + e, t + a, t + a + b + e), 2: (t + a, t + a + b, t + a + e, t + a + b + e)}, t + a + b + e),
+        # diamond: T0 -> T1 -> T3, T0 -> T2 -> T3 ; r1 = b + e, r2 = b
+        "diamond": (4, [(0, 1), (0, 2), (1, 3), (2, 3)], [a, b + e, b, d],
+                    lambda: {0: (t, t + a, t, t + a), 1: (t + a, t + a + b + e, t + a, t + a + b + e), 2: (t + a, t + a + b, t + a + e, t + a + b + e),
+                             3: (t + a + b + e, t + a + b + e + d, t + a + b + e, t + a + b + e + d)}, t + a + b + e + d),
+    }
+    for name, (n, edges, rem, exp_f, cpl) in shapes.items():
+        orders = list(itertools.permutations(range(n))) if ctx.thorough else [tuple(range(n)), tuple(reversed(range(n)))]
+        for order in orders:
+            f, tasks, outs = dag_run(ctx, n, edges, rem, order)
+            exp = exp_f()
+            ctx.instance(construct(f, f"{name}-order{''.join(map(str, order))}"), cells=len(outs) * (4 * n + 1))
+            for st, ex in outs:
+                bad = []
+                for i, tk in enumerate(tasks):
+                    for an, ev in zip(("est", "eft", "lst", "lft"), exp[i]):
+                        got = st.heap.get((tk.name, an))
+                        if not (isinstance(got, Poly) and got == ev):
+                            # on the path where e == 0 was assumed the two branches coincide
+                            lo, hi = st.bounds.get("e", (0, None))
+                            if hi == 0 and isinstance(got, Poly) and got.subst({"e": Poly.const(0)}) == ev.subst({"e": Poly.const(0)}):
+                                continue
+                            bad.append((tk.name, an, repr(got), repr(ev)))
+                got = st.heap.get(("self", "critical_path_length"))
+                lo, hi = st.bounds.get("e", (0, None))
+                same_at_zero = hi == 0 and isinstance(got, Poly) and got.subst({"e": Poly.const(0)}) == cpl.subst({"e": Poly.const(0)})
+                if not (isinstance(got, Poly) and got == cpl) and not same_at_zero:
+                    bad.append(("workflow", "critical_path_length", repr(got), repr(cpl)))
+                if bad:
+                    tn, an, g, ev = bad[0]
+                    ctx.violation(construct(f, f"formula:{name}:{an}"), f.loc(),
+                                  f"FS {name} (task_list order {list(order)}, one branch longer by e >= 0): {tn}.{an} = `{g}` but the critical-path computation gives `{ev}` "
+                                  f"({len(bad)} value(s) differ)", {"differences": bad[:8]})
+    ctx.end()
+
+
 def r12_3(ctx):
     ctx.begin("R12.3", "update_PERT_data is called at initialisation and once per step before allocation", floor=2)
     wi = ctx.repo.method(WORKFLOW, "initialize")
@@ -179,4 +247,5 @@ def r12_3(ctx):
 def run(ctx):
     r12_1(ctx)
     r12_2(ctx)
+    r12_2b(ctx)
     r12_3(ctx)
